@@ -24,6 +24,20 @@ CHECKS = {
              "ill-conditioned scenarios (kappa>1e4) regenerated/skipped and "
              "counted",
         design_ref="DESIGN.md section 2, C01"),
+    "C03": dict(
+        technique="runtime monitoring: ASan + UBSan + LeakSanitizer (queried "
+                  "per history) over generated API call histories with "
+                  "valid/boundary/invalid arguments",
+        text="Generated histories over every object kind and >110 public "
+             "functions, arguments from valid, boundary and invalid domains, "
+             "buffers always truthful; zero sanitizer reports, no crash/abort/"
+             "hang, and calls invalid by a documented rule return the failure "
+             "value. Executed paths only.",
+        note="trusted: gcc sanitizer runtimes; red-zone tools miss "
+             "non-adjacent / intra-object overflows; vla-bound and "
+             "nonnull-attribute checks are disabled (zero-length VLAs and "
+             "memcpy(p, NULL, 0) are not treated as defects)",
+        design_ref="DESIGN.md section 2, C03"),
     "C04": dict(
         technique="runtime monitoring: sanitized library driven by generated "
                   "inputs; offline oracle = defining port relations (numpy)",
